@@ -265,9 +265,16 @@ func ite(c, a, b string) string {
 	return "(ite " + c + " " + a + " " + b + ")"
 }
 
+func isLiteral(t string) bool {
+	return strings.HasPrefix(t, "#x") || strings.HasPrefix(t, "#b") || (strings.HasPrefix(t, "(_ bv") && !strings.Contains(t[1:], "("))
+}
+
 func eq(a, b string) string {
 	if a == b {
 		return "true"
+	}
+	if isLiteral(a) && isLiteral(b) && a[:2] == b[:2] {
+		return "false"
 	}
 	return "(= " + a + " " + b + ")"
 }
